@@ -100,8 +100,9 @@ def main():
         shutil.rmtree(alt, ignore_errors=True)
     dst = os.path.join(VERIF, "seeded", name)
     os.makedirs(dst, exist_ok=True)
-    shutil.copy(patch, os.path.join(dst, "patch.diff"))
-    shutil.copy(demo, os.path.join(dst, "demo.rs"))
+    for src, name_ in ((patch, "patch.diff"), (demo, "demo.rs")):
+        if os.path.abspath(src) != os.path.abspath(os.path.join(dst, name_)):
+            shutil.copy(src, os.path.join(dst, name_))
     m = json.load(open(meta)) if os.path.exists(meta) else {}
     m.update({"evaluation": out, "evaluated_at_repo_commit": subprocess.run("git -C /repo rev-parse --short HEAD", shell=True, stdout=subprocess.PIPE, text=True).stdout.strip(),
               "what_was_run": f"seedeval.py: scratch-worktree confirmation (demo without/with patch, lib tests with patch), then VERIF_REPO=<scratch worktree with the patch> ./check <id> {tier} for {checks}"})
